@@ -49,11 +49,19 @@ pub struct Protocol(pub Address);
 impl ProtocolPublicKey for Protocol { fn latest_address(&self) -> Address { self.0 } }
 
 /// CONTRACT of std HashMap (map semantics), exact for the key `probe`, nondeterministic for every other key
-pub struct HashMap<K, V> { pub probe: K, pub slot: Option<V>, pub other_inserts: Cell<u32> }
+pub struct HashMap<K, V> { pub probe: K, pub slot: Option<V>, pub other_inserts: Cell<u32>, pub other: Option<(K, V)> } // `other`: one arbitrary further entry (key != probe), seen only by whole-map operations
 impl<K: PartialEq + Copy, V: Copy> HashMap<K, V> {
-    pub fn retain<F: FnMut(&K, &mut V) -> bool>(&mut self, mut f: F) { if let Some(v) = self.slot.as_mut() { let p = self.probe; if !f(&p, v) { self.slot = None; } } }
+    pub fn retain<F: FnMut(&K, &mut V) -> bool>(&mut self, mut f: F) { if let Some(v) = self.slot.as_mut() { let p = self.probe; if !f(&p, v) { self.slot = None; } } if let Some((k, v)) = self.other.as_mut() { let kk = *k; if !f(&kk, v) { self.other = None; } } }
     pub fn insert(&mut self, k: K, v: V) -> Option<V> { if k == self.probe { self.slot.replace(v) } else { self.other_inserts.set(self.other_inserts.get() + 1); None } }
-    pub fn get(&self, k: &K) -> Option<&V> { if *k == self.probe { self.slot.as_ref() } else { nondet_other() } }
+    pub fn get(&self, k: &K) -> Option<&V> { if *k == self.probe { self.slot.as_ref() } else { match &self.other { Some((ok, ov)) if ok == k => Some(ov), _ => nondet_other() } } }
+    // (whole-map operations are offered so that a change from a keyed lookup to a scan still compiles and is judged by its effect)
+    pub fn iter(&self) -> impl Iterator<Item = (&K, &V)> { self.slot.iter().map(move |v| (&self.probe, v)).chain(self.other.iter().map(|(k, v)| (k, v))) }
+    pub fn values(&self) -> impl Iterator<Item = &V> { self.iter().map(|(_, v)| v) }
+    pub fn keys(&self) -> impl Iterator<Item = &K> { self.iter().map(|(k, _)| k) }
+    pub fn contains_key(&self, k: &K) -> bool { self.get(k).is_some() }
+    pub fn remove(&mut self, k: &K) -> Option<V> { if *k == self.probe { self.slot.take() } else { None } }
+    pub fn len(&self) -> usize { self.slot.is_some() as usize + self.other.is_some() as usize }
+    pub fn is_empty(&self) -> bool { self.len() == 0 }
 }
 // a lookup of a non-probed key answers "absent" or "some other key": both are explored through the probed key in another run
 fn nondet_other<'a, V>() -> Option<&'a V> { None }
@@ -97,7 +105,7 @@ impl<Pubkey: ProtocolPublicKey, P2P: P2PSubscriptions> Task<Pubkey, P2P> {
 #[cfg(kani)]
 fn any_sv(probe: Tai64) -> SignatureVerification<Protocol> {
     let has: bool = kani::any();
-    SignatureVerification { protocol_pubkey: Protocol(Address(kani::any())), delegate_keys: HashMap { probe, slot: if has { Some(DelegatePublicKey(kani::any())) } else { None }, other_inserts: Cell::new(0) } }
+    SignatureVerification { protocol_pubkey: Protocol(Address(kani::any())), delegate_keys: HashMap { probe, slot: if has { Some(DelegatePublicKey(kani::any())) } else { None }, other_inserts: Cell::new(0), other: { let k = Tai64(kani::any()); if kani::any() && k != probe { Some((k, DelegatePublicKey(kani::any()))) } else { None } } } }
 }
 
 // ---- a batch is accepted exactly when it has not expired and is signed by the delegate key registered for its expiration
